@@ -31,6 +31,8 @@ import (
 	"github.com/tetratelabs/wazero/experimental/sock"
 	expsys "github.com/tetratelabs/wazero/experimental/sys"
 	"github.com/tetratelabs/wazero/imports/wasi_snapshot_preview1"
+	socketapi "github.com/tetratelabs/wazero/internal/sock"
+	isys "github.com/tetratelabs/wazero/internal/sys"
 	"github.com/tetratelabs/wazero/internal/wasm"
 	wsys "github.com/tetratelabs/wazero/sys"
 	"github.com/tetratelabs/wazero/verifharness/wb"
@@ -55,7 +57,7 @@ type Run struct {
 
 type FdEnt struct {
 	Fd   int    `json:"fd"`
-	Kind string `json:"kind"` // in | out | err | pre | file | dir
+	Kind string `json:"kind"` // in | out | err | pre | file | dir | lsn | conn
 }
 
 type Result struct {
@@ -74,6 +76,7 @@ type Result struct {
 	Items    int     `json:"items"`
 	DurUS    int64   `json:"dur_us"`
 	SleepNS  int64   `json:"sleep_ns,omitempty"` // longest Nanosleep the host requested
+	DirOrder string  `json:"dir_order,omitempty"` // states dir/hole: name lengths of the mounted directory and of d/ in host listing order ("1,5,4 1")
 }
 
 const (
@@ -291,6 +294,9 @@ func (e *childEnv) exec(c Case) Result {
 		must(fmt.Errorf("image write"))
 	}
 	res := Result{ID: c.ID, Errno: -1, MemSize: mem.Size()}
+	if c.State == "dir" || c.State == "hole" {
+		res.DirOrder = listOrder(e.dir) + " " + listOrder(filepath.Join(e.dir, "d"))
+	}
 	res.Before, _, _, _ = tableDump(fsc)
 	f := mod.ExportedFunction("c_" + c.Fn)
 	if f == nil {
@@ -326,6 +332,27 @@ func (e *childEnv) exec(c Case) Result {
 	}
 	res.After, res.Masks, res.Items, res.TableMsg = tableDump(fsc)
 	return res
+}
+
+// listOrder: the name lengths of a host directory in the order the host lists it (not sorted).
+func listOrder(dir string) string {
+	f, err := os.Open(dir)
+	if err != nil {
+		return "?"
+	}
+	defer f.Close()
+	names, err := f.Readdirnames(-1)
+	if err != nil {
+		return "?"
+	}
+	if len(names) == 0 {
+		return "-"
+	}
+	ls := make([]string, len(names))
+	for i, n := range names {
+		ls[i] = fmt.Sprint(len(n))
+	}
+	return strings.Join(ls, ",")
 }
 
 func diffRuns(a, b []byte) []Run {
@@ -384,6 +411,18 @@ func tableDump(fsc any) (ents []FdEnt, nmasks, nitems int, msg string) {
 			kind = "pre"
 		case name == "d" || name == "d/":
 			kind = "dir"
+		}
+		// what the entry IS decides over the name: sockets, and directories opened under another name (".", "d/.")
+		if entry := (*isys.FileEntry)(it.UnsafePointer()); entry != nil && entry.File != nil {
+			if _, ok := entry.File.(socketapi.TCPSock); ok {
+				kind = "lsn"
+			} else if _, ok := entry.File.(socketapi.TCPConn); ok {
+				kind = "conn"
+			} else if kind == "file" {
+				if isDir, errno := entry.File.IsDir(); errno == 0 && isDir {
+					kind = "dir"
+				}
+			}
 		}
 		ents = append(ents, FdEnt{Fd: i, Kind: kind})
 	}
